@@ -50,6 +50,12 @@ module Little :
   val succ_double : uint -> uint
  end
 
+val add : nat -> nat -> nat
+
+val mul : nat -> nat -> nat
+
+val sub : nat -> nat -> nat
+
 type positive =
 | XI of positive
 | XO of positive
@@ -75,7 +81,19 @@ module type UsualOrderedTypeFull =
 
 module Nat :
  sig
+  val pred : nat -> nat
+
+  val eqb : nat -> nat -> bool
+
+  val leb : nat -> nat -> bool
+
+  val ltb : nat -> nat -> bool
+
   val compare : nat -> nat -> comparison
+
+  val max : nat -> nat -> nat
+
+  val min : nat -> nat -> nat
  end
 
 module Pos :
@@ -180,23 +198,41 @@ val hd_error : 'a1 list -> 'a1 option
 
 val nth : nat -> 'a1 list -> 'a1 -> 'a1
 
+val nth_error : 'a1 list -> nat -> 'a1 option
+
 val last : 'a1 list -> 'a1 -> 'a1
 
 val rev0 : 'a1 list -> 'a1 list
 
 val map : ('a1 -> 'a2) -> 'a1 list -> 'a2 list
 
+val flat_map : ('a1 -> 'a2 list) -> 'a1 list -> 'a2 list
+
 val fold_left : ('a1 -> 'a2 -> 'a1) -> 'a2 list -> 'a1 -> 'a1
+
+val fold_right : ('a2 -> 'a1 -> 'a1) -> 'a1 -> 'a2 list -> 'a1
+
+val existsb : ('a1 -> bool) -> 'a1 list -> bool
 
 val forallb : ('a1 -> bool) -> 'a1 list -> bool
 
 val filter : ('a1 -> bool) -> 'a1 list -> 'a1 list
+
+val combine : 'a1 list -> 'a2 list -> ('a1 * 'a2) list
+
+val firstn : nat -> 'a1 list -> 'a1 list
+
+val skipn : nat -> 'a1 list -> 'a1 list
+
+val seq : nat -> nat -> nat list
 
 module Z :
  sig
   val compare : z -> z -> comparison
 
   val eqb : z -> z -> bool
+
+  val max : z -> z -> z
 
   val eq_dec : z -> z -> bool
  end
@@ -702,3 +738,338 @@ val get_dependencies : 'a1 provider -> pkg -> z -> 'a1 dependencies_result
 type 'vS op = (pkg * z) * (pkg * 'vS) list
 
 val run : 'a1 op list -> 'a1 provider
+
+type pkg0 = n
+
+type ('vS, 'vr) kind =
+| KNotRoot of pkg0 * 'vr
+| KNoVersions of pkg0 * 'vS
+| KFromDep of pkg0 * 'vS * pkg0 * 'vS
+| KDerived of nat * nat
+| KCustom of pkg0 * 'vS * n
+
+type ('vS, 'vr) incompat = { terms : (pkg0 * 'vS term) list;
+                             ikind : ('vS, 'vr) kind }
+
+val get : pkg0 -> (pkg0 * 'a1) list -> 'a1 option
+
+val remove : pkg0 -> (pkg0 * 'a1) list -> (pkg0 * 'a1) list
+
+val set : pkg0 -> 'a1 -> (pkg0 * 'a1) list -> (pkg0 * 'a1) list
+
+val not_root : ('a1, 'a2) vSOps -> pkg0 -> 'a2 -> ('a1, 'a2) incompat
+
+val no_versions : pkg0 -> 'a1 term -> ('a1, 'a2) incompat option
+
+val custom_version :
+  ('a1, 'a2) vSOps -> pkg0 -> 'a2 -> n -> ('a1, 'a2) incompat
+
+val from_dependency :
+  ('a1, 'a2) vSOps -> pkg0 -> 'a1 -> (pkg0 * 'a1) -> ('a1, 'a2) incompat
+
+val as_dependency : ('a1, 'a2) incompat -> (pkg0 * pkg0) option
+
+val opt_term_eqb :
+  ('a1, 'a2) vSOps -> 'a1 term option -> 'a1 term option -> bool
+
+type panic_site =
+| PIndexMissing
+| PGetUnwrap
+| PSatisfierUnreachable
+| PSatisfierCauseNone
+| PMustBeDecision
+| PMustExist
+| PDerivationAfterDecision
+| PDecisionNoDerivations
+| PDecisionAlready
+| PDecisionNotContained
+| PDecisionChangedAssert
+| PExtractDerivation
+| PNoVersionsNegative
+| PSplitOne
+| PUnwrapPositive
+| PUnwrapNegative
+| PTreeMissing
+| PBacktrackEmpty
+| PAnyTerm
+
+type 'a res =
+| Good of 'a
+| Panic of panic_site
+
+val bind : 'a1 res -> ('a1 -> 'a2 res) -> 'a2 res
+
+val unwrap_positive : 'a1 term -> 'a1 res
+
+val unwrap_negative : 'a1 term -> 'a1 res
+
+val req : 'a1 option -> panic_site -> 'a1 res
+
+val merge_dependents :
+  ('a1, 'a2) vSOps -> ('a1, 'a2) incompat -> ('a1, 'a2) incompat -> ('a1,
+  'a2) incompat option res
+
+val merge_terms :
+  ('a1, 'a2) vSOps -> (pkg0 * 'a1 term) list -> (pkg0 * 'a1 term) list ->
+  (pkg0 * 'a1 term) list
+
+val prior_cause :
+  ('a1, 'a2) vSOps -> nat -> nat -> (pkg0 * 'a1 term) list -> (pkg0 * 'a1
+  term) list -> pkg0 -> ('a1, 'a2) incompat res
+
+val is_terminal :
+  ('a1, 'a2) vSOps -> ('a1, 'a2) incompat -> pkg0 -> 'a2 -> bool
+
+type 'vS dated = { d_gidx : nat; d_level : nat; d_cause : nat;
+                   d_accum : 'vS term }
+
+type ('vS, 'vr) assign_inter =
+| ADecision of nat * 'vr * 'vS term
+| ADerivations of 'vS term
+
+type ('vS, 'vr) pa = { smallest : nat; highest : nat;
+                       derivs : 'vS dated list; ai : ('vS, 'vr) assign_inter }
+
+val ai_term : ('a1, 'a2) assign_inter -> 'a1 term
+
+type ('vS, 'vr) psol = { next_gidx : nat; level : nat;
+                         assignments : (pkg0 * ('vS, 'vr) pa) list;
+                         queue : (pkg0 * z) list; changed : nat;
+                         backtracked : bool }
+
+val ps_empty : ('a1, 'a2) psol
+
+val term_for : ('a1, 'a2) psol -> pkg0 -> 'a1 term option
+
+val index_of : pkg0 -> (pkg0 * ('a1, 'a2) pa) list -> nat -> nat option
+
+val swap_indices : 'a1 list -> nat -> nat -> 'a1 list
+
+type rel =
+| RSatisfied
+| RContradicted
+| RAlmost of pkg0
+| RInconclusive
+
+val relation_scan :
+  ('a1, 'a2) vSOps -> (pkg0 * 'a1 term) list -> (pkg0 -> 'a1 term option) ->
+  pkg0 list -> pkg0 list option
+
+val relation0 :
+  ('a1, 'a2) vSOps -> (pkg0 * 'a1 term) list -> (pkg0 -> 'a1 term option) ->
+  rel
+
+val add_decision :
+  ('a1, 'a2) vSOps -> ('a1, 'a2) psol -> pkg0 -> 'a2 -> ('a1, 'a2) psol res
+
+val add_derivation :
+  ('a1, 'a2) vSOps -> ('a1, 'a2) psol -> pkg0 -> nat -> (pkg0 * 'a1 term)
+  list -> ('a1, 'a2) psol res
+
+val pick_candidates : ('a1, 'a2) psol -> (pkg0 * 'a1) list
+
+val queue_max : (pkg0 * z) list -> z option
+
+val drop_while_gt : nat -> 'a1 dated list -> 'a1 dated list
+
+val backtrack_pa : nat -> ('a1, 'a2) pa -> ('a1, 'a2) pa option res
+
+val backtrack_asg :
+  nat -> (pkg0 * ('a1, 'a2) pa) list -> (pkg0 * ('a1, 'a2) pa) list res
+
+val ps_backtrack : ('a1, 'a2) psol -> nat -> ('a1, 'a2) psol res
+
+val first_disjoint :
+  ('a1, 'a2) vSOps -> 'a1 dated list -> 'a1 term -> 'a1 dated option
+
+val satisfier :
+  ('a1, 'a2) vSOps -> ('a1, 'a2) pa -> 'a1 term -> ((nat option * nat) * nat)
+  res
+
+type sat_entry = pkg0 * ((nat option * nat) * nat)
+
+val find_satisfier :
+  ('a1, 'a2) vSOps -> (pkg0 * 'a1 term) list -> (pkg0 * ('a1, 'a2) pa) list
+  -> sat_entry list res
+
+val max_by_gidx : sat_entry list -> sat_entry option
+
+type search =
+| SDifferent of nat
+| SSame of nat
+
+val satisfier_search :
+  ('a1, 'a2) vSOps -> (pkg0 * 'a1 term) list -> ('a1, 'a2) psol -> ('a1, 'a2)
+  incompat list -> (pkg0 * search) res
+
+type ('vS, 'vr) state = { root : pkg0; rootv : 'vr;
+                          index : (pkg0 * nat list) list;
+                          contradicted : (nat * nat) list;
+                          merged : ((pkg0 * pkg0) * nat list) list;
+                          ps : ('vS, 'vr) psol;
+                          store : ('vS, 'vr) incompat list }
+
+val upd_ps : ('a1, 'a2) state -> ('a1, 'a2) psol -> ('a1, 'a2) state
+
+val state_init : ('a1, 'a2) vSOps -> pkg0 -> 'a2 -> ('a1, 'a2) state
+
+val pair_eqb : (pkg0 * pkg0) -> (pkg0 * pkg0) -> bool
+
+val get2 : (pkg0 * pkg0) -> ((pkg0 * pkg0) * nat list) list -> nat list option
+
+val set2 :
+  (pkg0 * pkg0) -> nat list -> ((pkg0 * pkg0) * nat list) list ->
+  ((pkg0 * pkg0) * nat list) list
+
+val index_get : pkg0 -> (pkg0 * nat list) list -> nat list
+
+val find_merge :
+  ('a1, 'a2) vSOps -> ('a1, 'a2) incompat -> nat list -> ('a1, 'a2) incompat
+  list -> (nat * ('a1, 'a2) incompat) option res
+
+val index_push :
+  nat -> (pkg0 * 'a1 term) list -> (pkg0 * nat list) list -> (pkg0 * nat
+  list) list
+
+val index_drop :
+  nat -> (pkg0 * 'a1 term) list -> (pkg0 * nat list) list -> (pkg0 * nat
+  list) list
+
+val has_any : ('a1, 'a2) vSOps -> (pkg0 * 'a1 term) list -> bool
+
+val merge_incompatibility :
+  ('a1, 'a2) vSOps -> ('a1, 'a2) state -> nat -> ('a1, 'a2) state res
+
+val alloc : ('a1, 'a2) state -> ('a1, 'a2) incompat -> ('a1, 'a2) state * nat
+
+val add_incompatibility :
+  ('a1, 'a2) vSOps -> ('a1, 'a2) state -> ('a1, 'a2) incompat -> ('a1, 'a2)
+  state res
+
+val merge_range :
+  ('a1, 'a2) vSOps -> ('a1, 'a2) state -> nat list -> ('a1, 'a2) state res
+
+val add_incompatibility_from_dependencies :
+  ('a1, 'a2) vSOps -> ('a1, 'a2) state -> pkg0 -> 'a2 -> (pkg0 * 'a1) list ->
+  (('a1, 'a2) state * (nat * nat)) res
+
+val add_version :
+  ('a1, 'a2) vSOps -> ('a1, 'a2) psol -> pkg0 -> 'a2 -> (nat * nat) -> ('a1,
+  'a2) incompat list -> ('a1, 'a2) psol res
+
+val backtrack :
+  ('a1, 'a2) vSOps -> ('a1, 'a2) state -> nat -> bool -> nat -> ('a1, 'a2)
+  state res
+
+type ('vS, 'vr) cr_result =
+| CROk of ('vS, 'vr) state * pkg0 * nat
+| CRTerminal of ('vS, 'vr) state * nat
+
+type outcome_err =
+| EFuel
+| EPanic of panic_site
+
+val conflict_resolution :
+  ('a1, 'a2) vSOps -> nat -> ('a1, 'a2) state -> nat -> bool -> (('a1, 'a2)
+  cr_result, outcome_err) sum
+
+val cache_set : nat -> nat -> (nat * nat) list -> (nat * nat) list
+
+val cached : nat -> (nat * nat) list -> bool
+
+val upd_cache : ('a1, 'a2) state -> (nat * nat) list -> ('a1, 'a2) state
+
+val scan_incompats :
+  ('a1, 'a2) vSOps -> nat list -> ('a1, 'a2) state -> pkg0 list -> ((('a1,
+  'a2) state * pkg0 list) * nat option) res
+
+type ('vS, 'vr) up_result =
+| UPOk of ('vS, 'vr) state
+| UPConflict of ('vS, 'vr) state * nat
+
+val unit_propagation :
+  ('a1, 'a2) vSOps -> nat -> ('a1, 'a2) state -> pkg0 list -> (('a1, 'a2)
+  up_result, outcome_err) sum
+
+type ('vS, 'vr) external0 =
+| XNotRoot of pkg0 * 'vr
+| XNoVersions of pkg0 * 'vS
+| XFromDep of pkg0 * 'vS * pkg0 * 'vS
+| XCustom of pkg0 * 'vS * n
+
+type ('vS, 'vr) tree =
+| TExternal of ('vS, 'vr) external0
+| TDerived of (pkg0 * 'vS term) list * nat option * ('vS, 'vr) tree
+   * ('vS, 'vr) tree
+
+val tree_dfs :
+  nat -> ('a1, 'a2) incompat list -> nat list -> nat list -> nat list -> (nat
+  list * nat list) option
+
+val tree_of :
+  nat -> ('a1, 'a2) incompat list -> nat list -> nat -> ('a1, 'a2) tree option
+
+val build_derivation_tree :
+  ('a1, 'a2) incompat list -> nat -> ('a1, 'a2) tree option
+
+type 'vr choose_ans =
+| CSome of 'vr
+| CNone
+| CErr
+
+type 'vS deps_ans =
+| DAvail of (pkg0 * 'vS) list
+| DUnavail of n
+| DErr
+
+type ('vS, 'vr) event =
+| EvCancel of bool
+| EvPrioritize of pkg0 * 'vS * z
+| EvChoose of pkg0 * 'vS * 'vr choose_ans
+| EvDeps of pkg0 * 'vr * 'vS deps_ans
+
+type failure =
+| FNoTerm
+| FIncompatibleVersion
+
+type ('vS, 'vr) outcome =
+| OSolution of (pkg0 * 'vr) list
+| ONoSolution of ('vS, 'vr) tree
+| OErrCancel
+| OErrChoose
+| OErrDeps of pkg0 * 'vr
+| OFailure of failure
+| OPanic of panic_site
+| OOutOfFuel
+| OMismatch of nat * n
+| OPickNotMax of nat * pkg0
+
+val do_prioritize :
+  ('a1, 'a2) vSOps -> (pkg0 * 'a1) list -> (pkg0 * z) list -> ('a1, 'a2)
+  event list -> nat -> (((pkg0 * z) list * ('a1, 'a2) event list) * nat,
+  ('a1, 'a2) outcome) sum
+
+val extract_solution : ('a1, 'a2) psol -> (pkg0 * 'a2) list res
+
+val added_has :
+  ('a1 -> 'a1 -> bool) -> (pkg0 * 'a1) list -> pkg0 -> 'a1 -> bool
+
+type 'vS pick_info = ((pkg0 * 'vS) list * (pkg0 * z) list) * nat
+
+val undecided_positive : ('a1, 'a2) psol -> (pkg0 * 'a1) list
+
+type ('vS, 'vr) result =
+  (('vS, 'vr) outcome * ('vS, 'vr) state) * 'vS pick_info list
+
+val res_out :
+  'a1 pick_info list -> 'a3 res -> ('a3 -> ('a1, 'a2) result) -> ('a1, 'a2)
+  state -> ('a1, 'a2) result
+
+val resolve_loop :
+  ('a1, 'a2) vSOps -> ('a2 -> 'a2 -> bool) -> nat -> ('a1, 'a2) state -> pkg0
+  -> (pkg0 * 'a2) list -> ('a1, 'a2) event list -> nat -> 'a1 pick_info list
+  -> ('a1, 'a2) result
+
+val resolve :
+  ('a1, 'a2) vSOps -> ('a2 -> 'a2 -> bool) -> nat -> pkg0 -> 'a2 -> ('a1,
+  'a2) event list -> ('a1, 'a2) result
